@@ -180,6 +180,16 @@ func newRig(cfg Config) (*rig, error) {
 	for i, m := range cfg.Ghosts { // a second address per ghost ("G12": G1 back under its id on a fresh port)
 		r.addr[m+"2"] = fmt.Sprintf("127.0.0.1:%d", 41500+i)
 	}
+	if cfg.Provider {
+		// addresses are opaque strings: the peers of the provider scenarios live on IPv6 literals, which differ only
+		// behind their last colon
+		for i, m := range cfg.Ghosts {
+			delete(r.name, r.addr[m])
+			r.addr[m] = fmt.Sprintf("[::1]:%d", 41000+len(cfg.Nodes)+i)
+			r.name[r.addr[m]] = m
+			r.addr[m+"2"] = fmt.Sprintf("[2001:db8::%d]:41500", i+1)
+		}
+	}
 	if g := cfg.Ghosts; !cfg.Provider && len(g) >= 2 {
 		// two members on one address (a node that came back under a fresh id next to its stale entry): a member is
 		// identified by its id, the host is an attribute
@@ -196,6 +206,11 @@ func newRig(cfg Config) (*rig, error) {
 		ccfg := cluster.NewConfig().WithEngine(e).WithID(name).WithRequestTimeout(3 * time.Second)
 		if !cfg.Provider {
 			ccfg = ccfg.WithProvider(stub)
+		} else if len(cfg.Ghosts) > 0 {
+			// the first peer is also configured as a bootstrap member (the provider greets it when it starts): it is a
+			// member like any other afterwards
+			g := cfg.Ghosts[0]
+			ccfg = ccfg.WithProvider(cluster.NewSelfManagedProvider(cluster.NewSelfManagedConfig().WithBootstrapMember(cluster.MemberAddr{ListenAddr: r.addr[g], ID: g})))
 		}
 		c, err := cluster.New(ccfg)
 		if err != nil {
@@ -419,7 +434,7 @@ func describe(st Step) string {
 // ---------------------------------------------------------------- provider mode (C20)
 
 const probeAddr = "127.0.0.1:41998"
-const unknownAddr = "127.0.0.1:41999"
+const unknownAddr = "[::1]:41999"
 
 // handshake sends a Handshake for member m to the provider and returns the member list it is answered with
 func (r *rig) handshake(n *node, m string) ([]string, error) {
